@@ -124,6 +124,63 @@ class Deadlock(Exception):
     pass
 
 
+TRACED = ("/conductor/execution/", "/conductor/utils/sigchld.py", "/conductor/task_types/run.py")
+
+
+def run_with_injection(m, ctx, tid, case, obs, inject, inj_state, inflight, pid_task, kills, trace):
+    import signal as _signal
+    from conductor.errors.signal import register_signal_handlers
+
+    old_int = _signal.getsignal(_signal.SIGINT)
+    old_term = _signal.getsignal(_signal.SIGTERM)
+    k = inject.get("k")
+    sig = inject.get("sig", _signal.SIGINT)
+
+    def local(frame, event, arg):  # pylint: disable=unused-argument
+        if event == "line":
+            inj_state["count"] += 1
+            if k is not None and inj_state["count"] == k and inj_state["fired"] is None:
+                inj_state["fired"] = {"live": [pid_task[p] for p in inflight], "where": os.path.basename(frame.f_code.co_filename),
+                                      "line": frame.f_lineno, "func": frame.f_code.co_name}
+                _signal.raise_signal(sig)
+        return local
+
+    def tracer(frame, event, arg):  # pylint: disable=unused-argument
+        fn = frame.f_code.co_filename
+        if any(t in fn for t in TRACED):
+            return local
+        return None
+
+    register_signal_handlers()
+    obs.abort = {"raised": None, "fired": None}
+    try:
+        sys.settrace(tracer)
+        try:
+            plan = m["Planner"](ctx).create_plan_for(tid, run_again=case.again)
+            ex = m["executor"].Executor(execution_slots=case.jobs)
+            ex.run_plan(plan, ctx, stop_on_first_error=case.stop)
+        finally:
+            sys.settrace(None)
+    except BaseException as e:  # pylint: disable=broad-except
+        obs.abort["raised"] = type(e).__name__
+        obs.abort["message"] = str(e)[:200]
+    finally:
+        _signal.signal(_signal.SIGINT, old_int)
+        _signal.signal(_signal.SIGTERM, old_term)
+        # an injection may land inside SigchldHelper.track()'s own clean-up: undo what it left behind
+        _signal.signal(_signal.SIGCHLD, _signal.SIG_DFL)
+        try:
+            _signal.set_wakeup_fd(-1)
+        except ValueError:
+            pass
+        m["sigchld"].SigchldHelper._Instance = None  # pylint: disable=protected-access
+    obs.abort["fired"] = inj_state["fired"]
+    obs.abort["events"] = inj_state["count"]
+    obs.abort["kills"] = list(kills)
+    obs.abort["finished_ok"] = [r[1] for r in trace if r[0] == "finish" and r[2] == 0]
+    obs.plan = None
+
+
 class Timeout(BaseException):
     pass
 
@@ -165,8 +222,14 @@ def task_of_ident(identifier):
     return int(identifier.name[1:])
 
 
-def run_impl(case, keep_root=False):
-    """drive the real code on the case; returns Observed"""
+def run_impl(case, keep_root=False, inject=None):
+    """drive the real code on the case; returns Observed.
+    inject = {"k": n | None, "sig": signal number, "popen_end": bool}: count line events of the main
+    thread inside conductor/execution, conductor/utils/sigchld.py, conductor/task_types/run.py and
+    conductor/execution/version_index.py from the start of planning; at the k-th raise the signal
+    (the Python-level handler installed by register_signal_handlers() then raises ConductorAbort
+    before that line executes).  popen_end: raise it at the end of the (fake) Popen() instead, i.e.
+    after the child exists and before Popen returns.  obs.abort describes what happened."""
     m = impl()
     obs = Observed()
     root = write_project(case)
@@ -179,6 +242,7 @@ def run_impl(case, keep_root=False):
             vi.insert_output_version(m["TaskIdentifier"].from_str(ident(i, t)), m["Version"](1000 + i, None, False))
         vi.commit_changes()
         del vi
+    import signal as _signal
     trace = []          # raw records
     started = set()
     inflight = []       # fake pids in spawn order
@@ -208,6 +272,9 @@ def run_impl(case, keep_root=False):
             pid_task[self.pid] = t
             started.add(t)
             trace.append(("start", t, None if slot is None else int(slot)))
+            if inject is not None and inject.get("popen_end") and inj_state["fired"] is None and len(obs.spawns) == inject.get("spawn_index", 1):
+                inj_state["fired"] = {"live": [pid_task[p] for p in inflight], "where": "inside-Popen-after-fork", "line": 0, "func": "Popen"}
+                _signal.raise_signal(inject.get("sig", _signal.SIGINT))
 
     class Shim:
         PIPE = -1
@@ -267,6 +334,7 @@ def run_impl(case, keep_root=False):
     out = io.StringIO()
     import signal as _signal
 
+    inj_state = {"count": 0, "fired": None}
     old_alarm = _signal.signal(_signal.SIGALRM, _on_alarm)
     _signal.alarm(IMPL_TIMEOUT)
     try:
@@ -298,7 +366,9 @@ def run_impl(case, keep_root=False):
                 obs.load = ("dup", task_of_ident(ex.task_identifier))
             except errors.ConductorError as ex:
                 obs.load = ("bad", last_loading[0], type(ex).__name__)
-            if obs.load[0] == "ok":
+            if obs.load[0] == "ok" and inject is not None:
+                run_with_injection(m, ctx, tid, case, obs, inject, inj_state, inflight, pid_task, kills, trace)
+            elif obs.load[0] == "ok":
                 plan = m["Planner"](ctx).create_plan_for(tid, run_again=case.again)
                 tk = lambda op: task_of_ident(op.main_task.identifier)  # noqa: E731
                 obs.plan = {
@@ -436,7 +506,33 @@ def ser_observed(case, obs):
     out += ser_list(ser_n, p["cached"])
     out += ser_list(ser_n, obs.sr_calls)
     out += ser_list(ser_n, obs.nv_calls)
+    out += ser_list(lambda sn: [sn[0]] + ser_list(lambda db: [db[0]] + ser_bool(db[1]), sn[1]), snapshot_of(case, obs))
     out += [12] + ser_list(ser_event, obs.events)
+    return out
+
+
+def snapshot_of(case, obs):
+    """per planned op (in all_ops order): (task, [(dependency, is-the-version-created-now)]) from the paths the
+    real planner put into the operation (COND_DEPS / combine links); groups get no paths"""
+    import re as _re
+
+    p = obs.plan
+    out = []
+    for (t, _deps, _par, _sync) in p["ops"]:
+        if case.tasks[t].kind == "group":
+            out.append((t, []))
+            continue
+        if t in p["deps_paths"]:
+            paths = p["deps_paths"][t]
+        else:
+            paths = [b for _a, b in p["combine_paths"].get(t, [])]
+        lst = []
+        for path in paths:
+            m = _re.search(r"/t(\d+)\.task(?:\.(\d+))?$", path)
+            d = int(m.group(1))
+            ver = m.group(2)
+            lst.append((d, ver is not None and p["versions"].get(d) == ver))
+        out.append((t, lst))
     return out
 
 
@@ -472,7 +568,7 @@ def model_dump(case, fuel=4000):
     from common import coq_eval, parse_eval
 
     text = ("From Coq Require Import List NArith Bool.\n" + IMPORTS + "\nImport ListNotations.\n"
-            "Definition tc := %s.\nEval vm_compute in (ser_outcome (length (fst tc)) (cond_run %d%%nat (fst tc) (snd tc))).\n" % (case.coq(), fuel))
+            "Definition tc := %s.\nEval vm_compute in (ser_outcome (fst tc) (cond_run %d%%nat (fst tc) (snd tc))).\n" % (case.coq(), fuel))
     (rc, out), = coq_eval([("dump", text)])
     vals = parse_eval(out)
     if rc != 0 or not vals:
